@@ -116,6 +116,8 @@ func cmdUnit(args []string) {
 	seq := fs.Bool("seq", false, "sequential mode (no havoc at Lock)")
 	nocache := fs.Bool("nocache", false, "disable cache")
 	dump := fs.String("dump", "", "dump scripts of obligations whose name contains this")
+	guard := fs.Bool("guard", false, "check the lock-guard discipline (C14)")
+	only := fs.String("only", "", "report only obligations of this kind")
 	fs.Parse(args)
 	t0 := time.Now()
 	env, err := loadEnv(*repo)
@@ -148,9 +150,20 @@ func cmdUnit(args []string) {
 				os.Exit(2)
 			}
 			t1 := time.Now()
-			u := verifyUnit(env, k, fn, UnitOpts{LockMode: *lock, Sequential: *seq})
+			u := verifyUnit(env, k, fn, UnitOpts{LockMode: *lock, Sequential: *seq, Guard: *guard})
 			fmt.Printf("== %s: %d obligations, %d assumptions, generated in %v\n", k, len(u.Obligs), len(u.Assumes), time.Since(t1))
 			units = append(units, u)
+		}
+	}
+	if *only != "" {
+		for _, u := range units {
+			var keep []*Oblig
+			for _, o := range u.Obligs {
+				if o.Kind == *only {
+					keep = append(keep, o)
+				}
+			}
+			u.Obligs = keep
 		}
 	}
 	if *dump != "" {
